@@ -156,13 +156,22 @@ def _wrap_mdx(img):
     return b"MEDIA DESCRIPTOR" + b"\x02\x01" + b"\xa9" + b" " * 25 + b"\xff" * 4 + (64 + len(img)).to_bytes(8, "little") + bytes(8) + img
 
 
-def h_image(container: int, tail: int, what: int) -> int:
+def _roland_image():
+    from vf import rolandw
+    from vf.props import c02
+    model = {"volumes": [("VolA", [0])], "performances": [("Perf0", [0]), ("Perf1", [1])], "patches": [("Patch0", [0]), ("Patch1", [1])],
+             "partials": [("Part0", [0, 1]), ("Part1", [1])],
+             "samples": [dict(name="Smp0", words=c02._words(5000, 1), chain=[1, 0], freq_code=1), dict(name="Smp1", words=c02._words(4608, 2), mode=5, freq_code=3)]}
+    return rolandw.build(model)
+
+
+def h_image(container: int, tail: int, what: int, fmt: int) -> int:
     """
-    pre: 1 <= container <= 4 and 0 <= tail <= 2 and 0 <= what <= 5
+    pre: 1 <= container <= 4 and 0 <= tail <= 2 and 0 <= what <= 5 and 0 <= fmt <= 1
     post: _ == 1
     """
     CNT[0] += 1
-    container, tail, what = conc(container, 1, 4), conc(tail, 0, 2), conc(what, 0, 5)
+    container, tail, what, fmt = conc(container, 1, 4), conc(tail, 0, 2), conc(what, 0, 5), conc(fmt, 0, 1)
     with untraced():
         import os
         import shutil
@@ -174,6 +183,8 @@ def h_image(container: int, tail: int, what: int) -> int:
         files = [("AAA", 0x73, sf("AAA", c01._words(6000, 1)), [1, 0]), ("PAD -L", 0x73, sf("PAD -L", c01._words(300, 3)), None),
                  ("PAD -R", 0x73, sf("PAD -R", c01._words(300, 4)), None), ("BBB", 0xf3, sf("BBB", c01._words(4026, 2), rate=22050), None)]
         img = akaiw.partition([("VOL ONE", files, None), ("VOL TWO", [("AAA", 0x73, sf("AAA", c01._words(9, 7)), None)], None)], size_sectors=24)
+        if fmt == 1:
+            img = _roland_image()
         img += bytes((0, 1000, 2048 + 517)[tail])         # image length a multiple of 2048 or not
         d = tempfile.mkdtemp(prefix="vf_c09_")
         try:
@@ -192,10 +203,13 @@ def h_image(container: int, tail: int, what: int) -> int:
             else:
                 put("data2.bin", _wrap2352(img))
                 other = put("c2.cue", b'file "data2.bin" binary\n  track 01 mode1/2352\n    index 01 00:00:00\n')
-            op = [("ls", ""), ("ls", "A:"), ("ls", "a/VOL ONE"), ("ls", "A:/VOL ONE/BBB"), ("ls", "A:/NOPE"), ("export", None)][what]
+            if fmt == 0:
+                op = [("ls", ""), ("ls", "A:"), ("ls", "a/VOL ONE"), ("ls", "A:/VOL ONE/BBB"), ("ls", "A:/NOPE"), ("export", None)][what]
+            else:
+                op = [("ls", ""), ("ls", "VolA"), ("ls", "VolA/Perf0"), ("ls", "_Orphan_perf/Perf1/Smp1"), ("ls", "VolA/NOPE"), ("export", None)][what]
             a = c16._do(actions.determine_image_type(raw), op)
             b = c16._do(actions.determine_image_type(other), op)
-            if type(actions.determine_image_type(other)).__name__ != "AkaiImageParser":
+            if type(actions.determine_image_type(other)).__name__ != ("AkaiImageParser", "RolandS7xxImage")[fmt]:
                 return 0
             return 1 if a == b else 0
         finally:
@@ -212,7 +226,7 @@ META = {
                     "independent wrapper models: 2352-byte raw sectors = 16 header + 2048 data + 288 EDC; MDX = 64-byte header (eof = total length) + image",
                     "C09.sig: the symbolic byte is concrete per path (256 values x 64 positions walked by the solver's decision tree)"],
     "trusted": ["CPython 3.12", "z3 5.1", "CrossHair 0.0.110", "construct 2.10 (header parsing)", "AbsFile/Spans"],
-    "out_of_claim": ["Roland images in containers end to end (no Roland writer; the byte-level obligations are format independent)", "MDX padding bytes 44..47 and 56..63 are accepted with any value by construct.Padding on parse (no claim)", "Roland signature bytes (regex on 3 strings; covered only by the cascade stub)"],
+    "out_of_claim": ["MDX padding bytes 44..47 and 56..63 are accepted with any value by construct.Padding on parse (no claim)", "Roland signature bytes (regex on 3 strings; covered only by the cascade stub)"],
 }
 
 
@@ -234,9 +248,11 @@ def obligations(tier, seed):
         if o["name"] == "C03.dispatch":
             obs.append(dict(o, name="C09.cue"))
     for container, cname in ((1, "2352-sectors"), (2, "mdx"), (3, "cue-raw"), (4, "cue-2352")):
-        obs.append(ob(f"C09.image/{cname}", "h_image", [f"container == {container}"], "image tail (multiple of 2048 or not), operation (4 ls levels, invalid path, export)",
-                      "one AKAI image from the independent writer, wrapped by independent container writers; real files; compared with the raw image",
-                      ["independent AKAI / MODE1-2352 / MDX / cue writers", "temporary files"]))
+        for fmt, fname in ((0, "akai"), (1, "roland")):
+            obs.append(ob(f"C09.image/{fname}/{cname}", "h_image", [f"container == {container}", f"fmt == {fmt}"] + (["tail <= 1"] if (q and fmt == 1) else []),
+                          "image tail (multiple of 2048 or not), operation (4 ls levels, invalid path, export)",
+                          f"one {fname.upper()} image from the independent writer, wrapped by independent container writers; real files; compared with the raw image",
+                          ["independent AKAI / S-770 / MODE1-2352 / MDX / cue writers", "temporary files"]))
     for which in (0, 1):
         positions = (list(range(0, 20)) + [44, 48, 63]) if q else list(range(64))
         for lo in range(0, len(positions), 2):
